@@ -341,8 +341,22 @@ class Printer:
         """a value of the concrete type S_j where an interface is expected (an implicit conversion)"""
         im = self.p["impls"][j]
         if im.get("valrecv") and self.pick(2) == 1:
-            return "%s{}" % self.implname(j, k)
-        return "&%s{}" % self.implname(j, k)
+            v = "%s{}" % self.implname(j, k)
+        else:
+            v = "&%s{}" % self.implname(j, k)
+        # the conversion may also happen inside a composite literal or an append (other conversion sites for the
+        # analysis; the value that comes out is the same)
+        sp = self.pick(8) if self.convsites else 0
+        it = self.tyname(("I", ik), k)
+        if sp == 4:
+            return "[]%s{%s}[0]" % (it, v)
+        if sp == 5:
+            return "[1]%s{%s}[0]" % (it, v)
+        if sp == 6:
+            return "append([]%s(nil), %s)[0]" % (it, v)
+        if sp == 7:
+            return "append([]%s{}, %s)[0]" % (it, v)
+        return v
 
     def calliexpr(self, xi, ik, m, args, k, cs):
         head = self.var(xi, k)
@@ -433,6 +447,7 @@ class Printer:
             return a + " " + op + " " + b, da + [(d, o + len(a) + len(op) + 2) for d, o in db]
         raise ValueError(c)
 
+    convsites = True   # spell conversions also through composite literals and append
     okforms = True     # spell ok tests also as comparisons with the constants
 
     def is_bool(self, v):
@@ -469,6 +484,11 @@ class Printer:
             self.stmt(s[1], k, ind); self.stmt(s[2], k, ind)
         elif kind == "assign" and s[1][0] == "L" and self.ltype(self.cur_fd, s[1][1]) in ("E", "B") and s[1][1] >= self.cur_np:
             self.emit("%s%s = %s" % (t, self.var(s[1], k), self.errexpr(s[2], k, self.is_bool(s[1]))))
+        elif kind == "assign" and isinstance(s[2], tuple) and s[2][0] == "conv" and self.convsites and self.pick(5) == 4:
+            # a declaration with an initial value is a conversion site of its own
+            self.ntmp = getattr(self, "ntmp", 0) + 1
+            self.emit("%svar c%d %s = %s" % (t, self.ntmp, self.tyname(("I", s[2][1]), k), self.convexpr(s[2][1], s[2][2], k)))
+            self.emit("%s%s = c%d" % (t, self.var(s[1], k), self.ntmp))
         elif kind == "assign":
             self.emit("%s%s = %s" % (t, self.var(s[1], k), self.atom(s[2], k)[0]))
         elif kind == "call":
@@ -524,7 +544,13 @@ class Printer:
             pre = "%s%s, %s = " % (t, "_" if s[1] is None else self.var(s[1], k), "_" if s[2] is None else self.var(s[2], k))
             self.emit(pre + ct, calls=[(c, oc + len(pre), oa + len(pre), ff) for c, oc, oa, ff in sites])
         elif kind == "conv":
-            self.emit("%s%s = %s" % (t, self.var(s[1], k), self.convexpr(s[2], s[3], k)))
+            if self.convsites and self.pick(5) == 4:
+                # a declaration with an initial value is a conversion site of its own
+                self.ntmp = getattr(self, "ntmp", 0) + 1
+                self.emit("%svar c%d %s = %s" % (t, self.ntmp, self.tyname(("I", s[2]), k), self.convexpr(s[2], s[3], k)))
+                self.emit("%s%s = c%d" % (t, self.var(s[1], k), self.ntmp))
+            else:
+                self.emit("%s%s = %s" % (t, self.var(s[1], k), self.convexpr(s[2], s[3], k)))
         elif kind == "calli":
             lhs = "_" if s[1] is None else self.var(s[1], k)
             ct, sites = self.calliexpr(s[2], s[3], s[4], s[5], k, s[6])
@@ -597,7 +623,12 @@ class Printer:
                 self.emit("var _ *%s" % self.T(k))
             for j, im in enumerate(p.get("impls") or []):
                 if im["pkg"] == k:
-                    self.emit("type S%d struct{ W int }" % j)
+                    if im.get("embed"):
+                        # the methods are declared on an embedded struct and promoted
+                        self.emit("type S%dB struct{ W int }" % j)
+                        self.emit("type S%d struct{ S%dB }" % (j, j))
+                    else:
+                        self.emit("type S%d struct{ W int }" % j)
             if p.get("sentinel") and p["sentinel_pkg"] == k:
                 self.emit('var ErrS = errors.New("s")')
             for g, gk in enumerate(p["gpkg"]):
@@ -627,7 +658,7 @@ class Printer:
                     rty = ("(r0 %s, r1 %s)" if fd.get("named") else "(%s, %s)") % (rty, second)
                 if fd.get("impl"):
                     j, m = fd["impl"]
-                    recv = ("p0 S%d" if p["impls"][j].get("valrecv") else "p0 *S%d") % j
+                    recv = ("p0 S%d" if p["impls"][j].get("valrecv") else "p0 *S%d") % j + ("B" if p["impls"][j].get("embed") else "")
                     self.emit("func (%s) %s(%s) %s {" % (recv, self.fname(f), ", ".join(params[1:]), rty))
                 elif fd.get("method"):
                     self.emit("func (p0 *T) %s(%s) %s {" % (self.fname(f), ", ".join(params[1:]), rty))
